@@ -27,8 +27,11 @@ type C20Op struct {
 
 // C20Plan is one wait/broadcast world.
 type C20Plan struct {
-	Conns    [][]C20Op      `json:"conns"`  // one client connection each (full stack: yubiagent client -> ServeAgent)
-	Direct   []int          `json:"direct"` // codes waited for by direct Server.Wait callers
+	Conns  [][]C20Op `json:"conns"`  // one client connection each (full stack: yubiagent client -> ServeAgent)
+	Direct []int     `json:"direct"` // codes waited for by direct Server.Wait callers
+	// Sibling: codes of requests sent over a connection to ANOTHER agent of the same process (its own shim, its
+	// own underlying agent): they are not requests received by the agent the waiters wait on
+	Sibling  []int          `json:"sibling,omitempty"`
 	Strategy sched.Strategy `json:"strategy"`
 }
 
@@ -74,7 +77,19 @@ func genC20(r *sim.Rng, tier string) any {
 		p.Direct = append(p.Direct, pickCode())
 		waiters++
 	}
-	total := 0
+	if r.Bool(0.3) {
+		for i := 0; i < r.Range(1, 4); i++ {
+			code := pickCode()
+			if code == 31 || code == 35 {
+				code = hot[0]
+			}
+			if code == 31 || code == 35 {
+				code = 11
+			}
+			p.Sibling = append(p.Sibling, code)
+		}
+	}
+	total := len(p.Sibling)
 	for _, c := range p.Conns {
 		total += len(c)
 	}
@@ -116,6 +131,11 @@ func shrinkC20(raw json.RawMessage) []json.RawMessage {
 		q.Direct = append(append([]int(nil), p.Direct[:i]...), p.Direct[i+1:]...)
 		emit(q)
 	}
+	for i := range p.Sibling {
+		q := clone()
+		q.Sibling = append(append([]int(nil), p.Sibling[:i]...), p.Sibling[i+1:]...)
+		emit(q)
+	}
 	if n := len(p.Strategy.Choices); n > 0 {
 		for _, keep := range []int{n / 2, 3 * n / 4} {
 			var q C20Plan
@@ -136,6 +156,7 @@ type c20state struct {
 	reqs      []*reqRec
 	cleanups  [][3]int // (code, sequence before, sequence after) of every clean-up broadcast of the harness
 	finished  bool
+	sibling   int // requests answered by the sibling agent
 	rounds    int
 	missed    []string
 	curWait   map[int]*waitRec // task id (the task that would park) -> wait in progress
@@ -190,6 +211,9 @@ func (c *c20state) addPanic(s string) { c.panics = append(c.panics, s) }
 
 //go:norace
 func (c *c20state) doneOne() { c.remaining-- }
+
+//go:norace
+func (c *c20state) siblingReq() { c.sibling++ }
 
 //go:norace
 func (c *c20state) left() int { return c.remaining }
@@ -257,6 +281,9 @@ func execC20(t *testing.T, raw json.RawMessage) *sim.Outcome {
 	ref := refagent.New()
 	s := sched.New(p.Strategy, 40000)
 	st := &c20state{curWait: map[int]*waitRec{}, remaining: len(p.Conns) + len(p.Direct)}
+	if len(p.Sibling) > 0 {
+		st.remaining++
+	}
 	up, upPeer := schedconn.Pipe("upstream")
 	peer := &refagent.Peer{Agent: ref}
 	s.Go("upstream", true, func() { peer.Serve(upPeer) })
@@ -377,6 +404,47 @@ func execC20(t *testing.T, raw json.RawMessage) *sim.Outcome {
 				}()
 				setf(&w.ret, s.Stamp())
 				st.setCur(self.ID, nil)
+				st.doneOne()
+				s.Wake(doneObj)
+			})
+		}
+		if len(p.Sibling) > 0 {
+			// a second agent of the same process: own underlying agent, own shim, own served connection
+			up2, up2Peer := schedconn.Pipe("sibling-upstream")
+			peer2 := &refagent.Peer{Agent: refagent.New()}
+			s.Go("sibling-upstream", true, func() { peer2.Serve(up2Peer) })
+			shim2, err := shimagent.VerifNewFromConn(up2, shimagent.Option{})
+			if err != nil {
+				initErr = "sibling agent: " + err.Error()
+				up.Close()
+				up2.Close()
+				return
+			}
+			yubi2 := yubiagent.VerifNewServer(shim2, "", true)
+			cc2, sc2 := schedconn.Pipe("sibling-conn")
+			s.Go("sibling-server", false, func() {
+				defer func() {
+					if r := recover(); r != nil {
+						st.addPanic(fmt.Sprintf("server task of the sibling agent panicked: %v @ %s", r, panicSite(debug.Stack())))
+					}
+					sc2.Close()
+				}()
+				yubiagent.ServeAgent(yubi2, sc2)
+			})
+			s.Go("sibling-client", false, func() {
+				cli, err := yubiagent.NewClientFromConn(cc2)
+				if err == nil {
+					for _, code := range p.Sibling {
+						body := []byte{byte(code)}
+						if code != 1 && code != 11 && code != 19 && code != 32 {
+							body = append(body, []byte("x")...)
+						}
+						cli.Forward(body)
+						st.siblingReq()
+					}
+				}
+				cc2.Close()
+				up2.Close()
 				st.doneOne()
 				s.Wake(doneObj)
 			})
@@ -506,6 +574,9 @@ func execC20(t *testing.T, raw json.RawMessage) *sim.Outcome {
 		o.Logf("%s code=%d parked=%v released_in_run=%v", w.who, w.code, w.parked != 0, w.cleanup == 0)
 	}
 	o.Fault("schedule/" + p.Strategy.Kind)
+	for i := 0; i < st.sibling; i++ {
+		o.Probe("request_on_another_agent_of_the_process")
+	}
 	for i := 0; i < s.Switches/100; i++ {
 		o.Probe("task_switches_x100")
 	}
